@@ -509,6 +509,16 @@ static int __config_validate_name(const char *name)
 
 /* ------------------------------------------------------------------------- */
 
+static void __config_reset_error(config_t *config)
+{
+  config->error_text = NULL;
+  config->error_file = NULL;
+  config->error_line = 0;
+  config->error_type = CONFIG_ERR_NONE;
+}
+
+/* ------------------------------------------------------------------------- */
+
 static int __config_read(config_t *config, FILE *stream, const char *filename,
                          const char *str)
 {
@@ -517,6 +527,7 @@ static int __config_read(config_t *config, FILE *stream, const char *filename,
   struct parse_context parse_ctx;
   int r;
 
+  __config_reset_error(config);
   config_clear(config);
 
   libconfig_parsectx_init(&parse_ctx);
@@ -648,6 +659,7 @@ int config_read_file(config_t *config, const char *filename)
     if(stream != NULL)
       fclose(stream);
 
+    __config_reset_error(config);
     config->error_text = __io_error;
     config->error_type = CONFIG_ERR_FILE_IO;
     return(CONFIG_FALSE);
@@ -663,7 +675,11 @@ int config_read_file(config_t *config, const char *filename)
 
 int config_write_file(config_t *config, const char *filename)
 {
-  FILE *stream = fopen(filename, "wt");
+  FILE *stream;
+
+  __config_reset_error(config);
+
+  stream = fopen(filename, "wt");
   if(stream == NULL)
   {
     config->error_text = __io_error;
